@@ -275,6 +275,17 @@ def c03(H):
 
 
 # ----------------------------------------------------------------------------- C04 / C07 shared: pool never broken
+def spurious_respawn(H):
+    """The manager re-spawns (and warns 'A worker stopped while some jobs were given') only when work was owed when a worker
+    left: more such warnings than worker exits with unresolved futures means the pending/running accounting is off."""
+    warns = sum(1 for x in H.warnings if "A worker stopped while some jobs" in x)
+    owed = sum(1 for st_, k, d in H.events if k == "exit" and (d.get("pending") or 0) > 0)
+    if warns > owed:
+        return [{"kind": "spurious_respawn", "detail": f"{warns} respawn warnings but only {owed} worker exits happened while a future was "
+                 f"unresolved (running/pending accounting inconsistent)", "where": "respawn"}]
+    return []
+
+
 def no_break(H, what):
     v = []
     b = any_broken(H)
@@ -301,6 +312,7 @@ def c04(H):
         oc = pr["outcome"]
         if oc and oc[0] == "raise" and not any(o["op"][0] in ("shutdown", "exit") for o in H.ops):
             v.append({"kind": "pool_unusable_after_containment", "detail": f"a fresh submit afterwards failed: {oc[1]['type']}: {oc[1]['str'][:200]}", "where": "probe"})
+    v += spurious_respawn(H)
     bad = [p for p in H.procs if p["exitcode"] not in (0, None) and not (p["death"] and p["death"].get("by") == "kill_process_tree")]
     if bad:
         v.append({"kind": "worker_died", "detail": f"workers ended abnormally with no fault injected: {[(p['pid'], p['exitcode']) for p in bad]}; {H.child_errors[:2]}", "where": "exitcode"})
